@@ -131,7 +131,7 @@ fn item<C: Suite>(ctx: &mut Ctx, n: u16, t: u16, kind: &str, keyk: &str) {
     let ys: Vec<Sc<C>> = grp.ids.iter().map(|i| grp.shares[i].signing_share().to_scalar()).collect();
     for sub in subsets(nn, tt, if nn <= 8 { 80 } else { 8 }, &mut p) {
         let kps: Vec<KeyPackage<C>> = sub.iter().map(|i| grp.kps[&grp.ids[*i]].clone()).collect();
-        match frost_core::keys::reconstruct(&kps) {
+        match C::api_reconstruct(&kps) {
             Ok(k2) => {
                 if k2.to_scalar() != key {
                     ctx.viol("t-shares-do-not-reconstruct", "library", d("reconstruct(t shares) != key", json!({"subset": sub})));
@@ -223,8 +223,8 @@ fn params<C: Suite>(ctx: &mut Ctx) {
                 ctx.count("params_valid_large_skipped");
                 continue;
             }
-            let r = frost_core::keys::split(&key, n, t, IdentifierList::Default, &mut rng);
-            let r2 = frost_core::keys::generate_with_dealer::<C, _>(n, t, IdentifierList::Default, &mut rng);
+            let r = C::api_split(&key, n, t, IdentifierList::Default, &mut rng);
+            let r2 = C::api_generate_with_dealer(n, t, IdentifierList::Default, &mut rng);
             for (nm, ok) in [("split", r.is_ok()), ("generate_with_dealer", r2.is_ok())] {
                 if ok != valid {
                     ctx.viol("parameter-validation", if ok { "invalid-accepted" } else { "valid-refused" }, json!({"fn": nm, "n": n, "t": t}));
@@ -240,7 +240,7 @@ fn params<C: Suite>(ctx: &mut Ctx) {
             if ctx.quick() && n != 65535 {
                 continue;
             }
-            match frost_core::keys::split(&key, n, 2, IdentifierList::Default, &mut rng) {
+            match C::api_split(&key, n, 2, IdentifierList::Default, &mut rng) {
                 Ok((shares, pkp)) => {
                     let last = Identifier::<C>::try_from(n).unwrap();
                     let first = Identifier::<C>::try_from(1u16).unwrap();
@@ -270,13 +270,26 @@ fn params<C: Suite>(ctx: &mut Ctx) {
         ("duplicate", 4, 2, vec![ids[0], ids[1], ids[1], ids[3]]),
         ("duplicate-adjacent-threshold", 3, 3, vec![ids[2], ids[2], ids[0]]),
     ] {
-        if frost_core::keys::split(&key, n, t, IdentifierList::Custom(&list), &mut rng).is_ok() {
+        if C::api_split(&key, n, t, IdentifierList::Custom(&list), &mut rng).is_ok() {
             ctx.viol("parameter-validation", &format!("identifier-list-{nm}"), json!({"n": n, "t": t}));
         }
         ctx.count("identifier_list_cases");
         ctx.class(format!("params/idlist/{nm}"));
     }
-    if frost_core::keys::split(&key, 4, 3, IdentifierList::Custom(&ids), &mut rng).is_err() {
+    // a list whose length exceeds the requested count by exactly 65536 (the count is a u16)
+    {
+        let many: Vec<Identifier<C>> = (0..65_536u64 + 3).map(|i| Identifier::<C>::new(sc_u64::<C>(1_000_000 + i)).unwrap()).collect();
+        for (n, t) in [(3u16, 2u16), (2, 2)] {
+            let list = &many[..65_536 + n as usize];
+            match C::api_split(&key, n, t, IdentifierList::Custom(list), &mut rng) {
+                Err(_) => {}
+                Ok((shares, _)) => ctx.viol("parameter-validation", "identifier-list-count-wraps-u16", json!({"n": n, "t": t, "identifiers": list.len(), "shares_returned": shares.len()})),
+            }
+            ctx.count("identifier_list_cases");
+        }
+        ctx.class("params/idlist/count-wraps-u16");
+    }
+    if C::api_split(&key, 4, 3, IdentifierList::Custom(&ids), &mut rng).is_err() {
         ctx.viol("parameter-validation", "valid-refused", json!({"what": "custom list with boundary identifiers 1 and 65535"}));
     }
     if Identifier::<C>::try_from(0u16).is_ok() {
